@@ -134,8 +134,10 @@ func (bridge *ExprBridge) CreateEnhancedExprEnvironment(data map[string]any) map
 	env["streamsql_max"] = env["max"]
 
 	// Add custom LIKE matching function
-	env["like_match"] = func(text, pattern string) bool {
-		return bridge.matchesLikePattern(text, pattern)
+	env["like_match"] = func(text any, pattern string) bool {
+		// only a text can match: a NULL / missing operand would otherwise arrive here as ""
+		s, ok := text.(string)
+		return ok && bridge.matchesLikePattern(s, pattern)
 	}
 
 	return env
@@ -647,8 +649,9 @@ func (bridge *ExprBridge) convertLikeToFunction(field, pattern string) string {
 		// %pattern% -> contains操作符（但不是单独的%）
 		inner := strings.Trim(pattern, "%")
 		if inner == "" {
-			// %% 表示匹配任何字符串
-			return "true"
+			// %% matches any TEXT: a NULL / missing / non-text operand is not a match,
+			// so the operand still has to be looked at.
+			return fmt.Sprintf("like_match(%s, '%s')", field, pattern)
 		}
 		return fmt.Sprintf("%s contains '%s'", field, inner)
 	} else if strings.HasPrefix(pattern, "%") && len(pattern) > 1 {
@@ -660,8 +663,8 @@ func (bridge *ExprBridge) convertLikeToFunction(field, pattern string) string {
 		prefix := strings.TrimRight(pattern, "%")
 		return fmt.Sprintf("%s startsWith '%s'", field, prefix)
 	} else if pattern == "%" {
-		// 单独的%匹配任何字符串
-		return "true"
+		// a lone % matches any TEXT (not a NULL / missing operand)
+		return fmt.Sprintf("like_match(%s, '%s')", field, pattern)
 	} else if strings.Contains(pattern, "%") || strings.Contains(pattern, "_") {
 		// 复杂模式（如prefix%suffix）或包含单字符通配符，使用自定义的like_match函数
 		return fmt.Sprintf("like_match(%s, '%s')", field, pattern)
